@@ -223,7 +223,7 @@ class Gen:
         simple = (not self.o['nonsimple']) or r.random() < 0.6
         els = []
         for i in range(nel):
-            w = self.on_grid(g, 1, 10) * 2 if not self.o.get('odd_widths') else self.on_grid(g, 1, 21)
+            w = self.on_grid(g, 1, 21) if (self.o.get('odd_widths') and simple) else self.on_grid(g, 1, 10) * 2      # odd widths only where no outline lands on half-grid ties
             off = 0.0 if (nel == 1 and r.random() < 0.7) else (i - (nel - 1) / 2) * self.on_grid(g, 8, 14) * 2
             ends = [0, 2, 3] + ([1] if self.o['round_ends'] else [])
             end = r.choice(ends)
@@ -233,7 +233,8 @@ class Gen:
                         'end': end, 'ext': ext, 'bend': 0, 'bend_radius': 0.0})
         for _attempt in range(30):
             p0, pts, ipts = self._spine(g, els)
-            if not self_approach(ipts, 40):
+            # two legs of the path must stay apart even after the elements are displaced sideways by their offsets
+            if not self_approach(ipts, 20 + 2 * max(abs(e['offset']) + e['width'] / 2 for e in els) / g):
                 break
         else:
             p0, pts = (ipts[0][0] * g, ipts[0][1] * g), [(ipts[1][0] * g, ipts[1][1] * g)]
@@ -246,7 +247,7 @@ class Gen:
         simple = (not self.o['nonsimple']) or r.random() < 0.6
         els = []
         for i in range(nel):
-            w = self.on_grid(g, 1, 10) * 2 if not self.o.get('odd_widths') else self.on_grid(g, 1, 21)
+            w = self.on_grid(g, 1, 21) if (self.o.get('odd_widths') and simple) else self.on_grid(g, 1, 10) * 2      # odd widths only where no outline lands on half-grid ties
             off = 0.0 if (nel == 1 or simple) else (i - (nel - 1) / 2) * self.on_grid(g, 8, 14) * 2
             ends = [0, 2, 3] + ([1] if self.o['round_ends'] else [])
             end = r.choice(ends)
@@ -257,7 +258,7 @@ class Gen:
             # simple robust paths stay Manhattan: gdstk samples each section at interior points whose individual
             # rounding would be visible on an oblique line
             p0, pts, ipts = self._spine(g, els, allow_oblique=not simple)
-            if not self_approach(ipts, 40):
+            if not self_approach(ipts, 20 + 2 * max(abs(e['offset']) + e['width'] / 2 for e in els) / g):
                 break
         else:
             p0, pts = (ipts[0][0] * g, ipts[0][1] * g), [(ipts[1][0] * g, ipts[1][1] * g)]
